@@ -96,7 +96,7 @@ def impl(case):
                 d0s.append(None)
             else:
                 d0r, d1r = case['drange']
-                ng = int(np.ceil(1 + (np.log10(d1r) - np.log10(d0r)) / case['logd_step']))
+                ng = fitcase.n_grid(case)[0]
                 grid = np.logspace(np.log10(d0r), np.log10(d1r), ng)
                 d0 = float(grid[min(int(dindex * ng), ng - 1)])
                 d0s.append(d0)
